@@ -242,10 +242,10 @@ def step (c : Ctx) (line : String) : Ctx × Array String :=
         match op, args with
         | "svc", rd :: wr :: rest =>
           let o := parseOpts rest
-          fin (doSvc r name (rd == "1") (wr == "1") o)
+          fin (doSvc r name (rd == "1") (wr.startsWith "1") o)
         | "drain", mx :: rd :: wr :: rest =>
           let o := parseOpts rest
-          let (r, lines) := drain r r.opno 0 (toN mx) (rd == "1") (wr == "1") o #[]
+          let (r, lines) := drain r r.opno 0 (toN mx) (rd == "1") (wr.startsWith "1") o #[]
           ({ c with run := some r }, lines)
         | "trig", cid :: ty :: rest => let o := parseOpts rest; fin (doOp r name (.trigger (toN cid) (toI ty) o.lk o.ul))
         | "trigr", cid :: rest => let o := parseOpts rest; fin (doOp r name (.trigger (toN cid) 1 o.lk o.ul))
